@@ -56,7 +56,8 @@ CONFIGS = {
     # a volume limit of 1% (and bars granting 3 / 2.5 / 10 / 0 units at that limit)
     "K28": dict(lend=None, fee=None, liq=(1, 0), init=(("USD", 5000), ("BTC", 30)), bp=0, qp=2, liq_shapes=(16, 17, 18, 4)),
     # pair precisions derived from different symbol precisions, the base one finer
-    "K29": dict(lend=None, fee=(1, 0), liq=(33, 0), init=(("USD", 2000), ("BTC", 30)), bp=2, qp=1, no_pair_info=True),
+    "K29": dict(lend=None, fee=(1, 0), liq=(33, 0), init=(("USD", 2000), ("BTC", 30)), bp=2, qp=1, no_pair_info=True,
+                liq_shapes=(19, 1, 12, 4), amt_scale=10),
     # default lending conditions (lax, cheap, interest in USD) next to per-symbol ones (strict): the per-symbol ones apply
     "K30": dict(lend=dict(req="1", isym="same", period=10, default=dict(req="0.2", pct=1)), fee=None, liq=None,
                 init=(("USD", 300),), bp=0, qp=2),
@@ -64,6 +65,8 @@ CONFIGS = {
     "K31": dict(lend=dict(req="0.5", isym="USD", period=10, minint=1, req_by_symbol={"BTC": "0"}), fee=("0.25", 500), liq=None,
                 init=(("USD", 100),), bp=0, qp=2),
     # interest on every loan charged in BTC: for a USD loan the conversion goes through the inverse of BTC/USD
+    # a large account: one precision unit is a tiny fraction of the largest admissible loan (margin boundary)
+    "K34": dict(lend=dict(req="0.2", isym="USD", period=10), fee=None, liq=None, init=(("USD", 10000000),), bp=0, qp=2),
     "K33": dict(lend=dict(req="0.5", isym="BTC", period=1, pct=3), fee=None, liq=None, init=(("USD", 1000), ("BTC", 1)),
                 bp=8, qp=2),
 }
@@ -106,6 +109,14 @@ def plan(prop, tier, spec):
     repetitions) items; spec["conf_"+tier]: (config, depth) conformance items. Returns sharded scenarios."""
     out = []
     for item in spec[tier]:
+        if item[0] == "lasso3":
+            # all 3-cycles of a tiny alphabet x every phase of the open-list re-index (offset = polls before the run)
+            _, name, level, reps = item
+            alpha = exch.alphabet(CONFIGS[name], level)
+            for a1 in alpha:
+                for off in range(0, 8):
+                    out.append(("lasso3", name, level, reps, a1, off))
+            continue
         if item[0] == "lasso":
             _, name, level, maxlen, reps = item
             cfg = CONFIGS[name]
@@ -141,8 +152,49 @@ def signature(prop, clause, a):
     return f"{prop}:{clause}:{a[0]}"
 
 
+DEEP = {"C05": {"orders"}, "C02": {"balances", "loans"}, "C11": {"loans"}}
+
+
+def margin_boundary_probe(cfg, hist, found, res):
+    """C10: in the state reached by hist, the smallest loan amounts that an independent calculation says must be refused
+    (largest admissible amount plus one precision unit, per priced symbol) are requested; the margin monitor flags a grant."""
+    from worlds.exch_monitors import prices_of, ZERO
+    from decimal import Decimal as D, ROUND_DOWN
+    w = exch.build(cfg, hist)
+    if w.t == 0:
+        return
+    snap = w.snapshot()
+    pr = prices_of(w)
+    lend = cfg["lend"]
+    req = D(str(lend["req"]))
+    by_symbol = {k: D(str(v)) for k, v in (lend.get("req_by_symbol") or {}).items()}
+    if not all(s in pr for s, b in snap.bal.items() if b[2] or b[3] > 0):
+        return
+    equity = sum((b[3] * pr[s] for s, b in snap.bal.items() if b[3] > 0), ZERO)
+    need = sum((by_symbol.get(s, req) * b[2] * pr[s] for s, b in snap.bal.items() if b[2]), ZERO)
+    for sym in ("USD", "BTC"):
+        r = by_symbol.get(sym, req)
+        if sym not in pr or r <= 0:
+            continue
+        u = D(1).scaleb(-exch.sym_prec(cfg, sym))
+        room = max(equity - need, ZERO) / (r * pr[sym])
+        x = (room / u).to_integral_value(rounding=ROUND_DOWN) * u + u
+        a = ("loan", sym, str(x))
+        out = exch_bfs.transition(cfg, hist, a, ["C10"])
+        if out is None:
+            continue
+        res.transitions += 1
+        res.executions += 1
+        res.extra["margin_boundary_probes"] += 1
+        if out[1].raised is None:
+            res.extra["margin_boundary_probes_granted"] += 1
+        if out[2]:
+            found.append((list(hist) + [a], out[2]))
+
+
 def run_scenario(prop, sc, tier):
     exch.install_deterministic_ids()
+    exch.DEEP_READS = DEEP.get(prop, set())
     res = Result()
     res.union_keys = True  # BFS shards of one configuration reach common states
     if sc[0] == "conf":
@@ -173,6 +225,22 @@ def run_scenario(prop, sc, tier):
         return res
     if sc[0] == "lasso":
         return run_lasso(prop, sc, res)
+    if sc[0] == "lasso3":
+        _, name, level, reps, a1, off = sc
+        cfg = CONFIGS[name]
+        alpha = exch.alphabet(cfg, level)
+        found = []
+        for a2 in alpha:
+            for a3 in alpha:
+                cyc = [a1, a2, a3]
+                if not any(a[0] == "bar" for a in cyc) or not any(a[0] == "ord" for a in cyc):
+                    continue
+                exch_bfs.lasso(cfg, [alpha[0]], cyc, reps, [prop], res, lambda h, b: found.append((h, b)), offset=off)
+        res.nontrivial |= res.states
+        if not res.samples:
+            res.samples.append(dict(config=name, lasso3_first_action=list(a1), polls_before=off, repetitions=reps))
+        report(prop, name, cfg, found, res)
+        return res
     _, name, level, depth, prefix = sc
     cfg = CONFIGS[name]
     alpha = exch.alphabet(cfg, level)
@@ -198,7 +266,12 @@ def run_scenario(prop, sc, tier):
         res.executions += 1
         if out and out[2]:
             found.append((list(prefix), out[2]))
-    exch_bfs.bfs(cfg, alpha, depth, [prop], res, prefix=prefix, on_violation=on_violation)
+    on_state = None
+    if prop == "C10" and cfg.get("lend") and name in ("K34", "K1", "K15", "K30"):
+        def on_state(h):
+            margin_boundary_probe(cfg, h, found, res)
+        on_state(list(prefix))
+    exch_bfs.bfs(cfg, alpha, depth, [prop], res, prefix=prefix, on_violation=on_violation, on_state=on_state)
     if not res.samples:
         res.samples.append(dict(config=name, history_prefix=[list(a) for a in prefix], depth=depth, alphabet=len(alpha)))
     report(prop, name, cfg, found, res)
